@@ -307,6 +307,8 @@ def full_cell(P, A):
         sig = None if ok else 'changed-before-raising-' + type(out.exc).__name__
     elif prop == 'envelope':
         sig = envelope_ok(ro, mid_obj, roid_obj)
+        if sig is None and isinstance(out.exc, B.BadReturn):
+            sig = 'running-order-lost-merge-returned-something-else'
         ok = sig is None
     elif prop == 'report':
         if out.raised:
@@ -331,7 +333,10 @@ def full_cell(P, A):
         aff_i, dis_i = affected_displaced(P, pl)
         aff = [before_keyed[i] for i in aff_i]
         dis = [before_keyed[i] for i in dis_i]
-        if rc2 is not rc:
+        if isinstance(out.exc, B.BadReturn):
+            # after `ro += msg` the caller holds no running order any more: everything the message did not name is gone
+            sig = 'running-order-lost-merge-returned-something-else'
+        elif rc2 is not rc:
             sig = 'roCreate-replaced'
         elif level == 'story':
             sig = frame_ok(rc_children, rc_snaps, list(rc2), aff, dis)
